@@ -278,15 +278,22 @@ func runC40(c *Ctx) {
 	okBoth := len(cp) == 1 && len(closes) == 2
 	if okBoth {
 		// both closes on every path from the copy to an exit
+		// (the copy and the closes may sit together in an invoked literal - an inlined
+		// "copy then close" helper: the paths are then those of the literal)
+		cg := pi.enclosing(cp[0])
 		for _, cl := range closes {
-			_, exits := pi.Reach(cp[0], func(n ast.Node) bool { return containsNode(n, cl) }, nil)
+			if pi.enclosing(cl) != cg {
+				okBoth = false
+				continue
+			}
+			_, exits := cg.Reach(cp[0], func(n ast.Node) bool { return containsNode(n, cl) }, nil)
 			if len(exits) > 0 {
 				okBoth = false
 			}
 		}
 		recv := map[string]bool{}
 		for _, cl := range closes {
-			recv[pi.Prov(cl.Fun.(*ast.SelectorExpr).X)] = true
+			recv[pi.enclosing(cl).Prov(cl.Fun.(*ast.SelectorExpr).X)] = true
 		}
 		okBoth = okBoth && recv["param#2"] && recv["param#3"]
 	}
